@@ -5,6 +5,7 @@ import (
 	"fmt"
 	"sort"
 	"strings"
+	"time"
 
 	"verifharness/core"
 )
@@ -230,7 +231,7 @@ func (t *tables) term() string {
 		pool = "(Some " + t.hex(t.w.Pool) + ")"
 	}
 	return "(mk_tables " + strings.Join([]string{t.l3(t.sign), t.l3(t.kdf), t.l3(t.mac), core.List(sk), core.List(js),
-		pool, core.List(nm), core.Z(int64(t.w.MaxAge)), t.hex([]byte(t.w.Trust))}, " ") + ")"
+		pool, core.List(nm), core.Z(int64(t.w.MaxAge)), t.hex([]byte(t.w.Trust)), lit([]byte(t.w.Env)), durTerm(t.w.Env)}, " ") + ")"
 }
 
 func (t *tables) framesTerm(fr []frame) string {
@@ -248,4 +249,21 @@ func (t *tables) needKid(kid string) {
 		t.kids = map[string]bool{}
 	}
 	t.kids[kid] = true
+}
+
+// durTerm: what time.ParseDuration answers for the strings a reader of
+// SEC_TOKEN_MAX_AGE may hand it (the value itself and the value followed by "s").
+func durTerm(env string) string {
+	if env == "" {
+		return "[]"
+	}
+	var xs []string
+	for _, q := range []string{env + "s", env} {
+		v := "None"
+		if d, err := time.ParseDuration(q); err == nil {
+			v = "(Some " + core.Z(int64(d)) + ")"
+		}
+		xs = append(xs, core.Pair(lit([]byte(q)), v))
+	}
+	return core.List(xs)
 }
